@@ -6,13 +6,15 @@ import GocoinV.Proofs.C19Disk
 namespace GocoinV.Proofs.C19
 open GocoinV GocoinV.Qdb GocoinV.QdbSpec
 
+variable {eg : Bool}
+
 /-- well-formed in-memory record: key and flags fit their on-disk width, `datlen` is the length of the data -/
 def RecWF (kr : Key × Rec) : Prop :=
   kr.1 < 2^64 ∧ kr.2.flags < 2^32 ∧ kr.2.len = (kr.2.data.getD []).length
 
 /-- well-formed cached index: records cached and well-formed, keys distinct, everything fits one data file -/
-structure IndexWF (l : List (Key × Rec)) : Prop where
-  cached : AllCached l
+structure IndexWF (eg : Bool) (l : List (Key × Rec)) : Prop where
+  cached : AllCached eg l
   wf : ∀ kr ∈ l, RecWF kr
   nodup : (l.map (·.1)).Nodup
   small : 4 + (valsOf l).flatten.length < 2^32
@@ -76,8 +78,8 @@ theorem layout_length (s base : Nat) (l : List (Key × Rec)) : (layout s base l)
 def stripKR (kr : Key × Rec) : Key × Rec := (kr.1, strip kr.2)
 
 /-- `load` on the stripped laid-out records reads every value back -/
-theorem loadFold_layout (s : Nat) (l : List (Key × Rec)) (hc : AllCached l) (hw : ∀ kr ∈ l, RecWF kr)
-    (d : DB) (hf : d.failed = none) (pre post : Bytes)
+theorem loadFold_layout (s : Nat) (l : List (Key × Rec)) (hc : AllCached eg l) (hw : ∀ kr ∈ l, RecWF kr)
+    (d : DB) (hf : d.failed = none) (he : d.eager = eg) (pre post : Bytes)
     (hfile : dlookup s d.fs.dats = some (pre ++ ((valsOf l).flatten ++ post)))
     (hsmall : pre.length + (valsOf l).flatten.length < 2^32) (acc : List (Key × Rec)) :
     ((layout s pre.length l).map stripKR).foldl loadOne (d, acc) = (d, acc ++ layout s pre.length l) := by
@@ -111,7 +113,7 @@ theorem loadFold_layout (s : Nat) (l : List (Key × Rec)) (hc : AllCached l) (hw
       have hstep : loadOne (d, acc) (stripKR (k, ⟨some v, s, u32 pre.length, v.length, rf⟩)) =
           (d, acc ++ [(k, ⟨some v, s, u32 pre.length, v.length, rf⟩)]) := by
         unfold loadOne stripKR strip
-        simp only [hf, hnc, Bool.false_eq_true, ↓reduceIte, hfile, hbase, hsum, hb, hslice]
+        simp only [hf, he, hnc, Bool.false_eq_true, ↓reduceIte, hfile, hbase, hsum, hb, hslice]
       have hlay : layout s pre.length ((k, ⟨some v, rs, rp, v.length, rf⟩) :: t) =
           (k, ⟨some v, s, u32 pre.length, v.length, rf⟩) :: layout s (pre ++ v).length t := by
         simp [layout]
@@ -173,19 +175,25 @@ theorem pickIdx_single (F : FS) (i v : Nat) (X : Bytes) (hc : checkIdxFile (some
     rw [h1, h2, hc]
     exact ⟨1, rfl⟩
 
+theorem memputAll_eager (recs : List (Key × Rec)) (db : DB) : (memputAll db recs).eager = db.eager := by
+  unfold memputAll
+  induction recs generalizing db with
+  | nil => rfl
+  | cons kr t ih => simp only [List.foldl_cons]; exact (ih _).trans (memput_eager db kr.1 kr.2)
+
 /-- Opening (with LoadData) a directory that holds one complete snapshot of a laid-out index, no log, and
     the data file with the values in layout order yields exactly that index, with every value in memory. -/
-theorem open_snapshot (F : FS) (i v s : Nat) (l : List (Key × Rec)) (hwf : IndexWF l)
+theorem open_snapshot (F : FS) (i v s : Nat) (l : List (Key × Rec)) (hwf : IndexWF eg l)
     (hv : v < 2^32) (hs : s < 2^32)
     (h1 : idxFile F i = some (snapBytes v (layout s 4 l))) (h2 : otherIdx F i = none) (h3 : F.log = none)
     (h4 : dlookup s F.dats = some (le32 s ++ (valsOf l).flatten)) (vol : Bool) (opts : Opts) :
-    (openDB F vol true opts).index = layout s 4 l ∧ (openDB F vol true opts).failed = none := by
+    (openDB F vol true opts eg).index = layout s 4 l ∧ (openDB F vol true opts eg).failed = none := by
   have hfits := layout_fits s hs l hwf.wf 4 hwf.small
   have hchk := checkIdxFile_snapBytes v (layout s 4 l) hv
   have hrecs := snapshotRecs_snapBytes v (layout s 4 l) hfits
   obtain ⟨j, hpick⟩ := pickIdx_single F i v _ hchk h1 h2
   -- loaddat
-  let db0 : DB := { fs := F, volatile := vol, opts := opts }
+  let db0 : DB := { fs := F, volatile := vol, opts := opts, eager := eg }
   let dbE : DB := { emit db0 "qdb.loadneweridx:removed" (.removeIdx (1 - j)) with datIdx := j, verSeq := v }
   have hld : loaddat db0 = (memputAll dbE ((layout s 4 l).map stripKR), ((layout s 4 l).map stripKR).map (·.2.seq)) := by
     unfold loaddat
@@ -221,11 +229,11 @@ theorem open_snapshot (F : FS) (i v s : Nat) (l : List (Key × Rec)) (hwf : Inde
   -- cleanupold keeps the data file when it is used
   let dbA := memputAll dbE ((layout s 4 l).map stripKR)
   let used := ((layout s 4 l).map stripKR).map (·.2.seq)
-  have hopen : openDB F vol true opts = { loadAll (cleanupold dbA used) with
+  have hopen : openDB F vol true opts eg = { loadAll (cleanupold dbA used) with
       dataSeq := u32 ((loadAll (cleanupold dbA used)).maxSeq + 1) } := by
     unfold openDB
     simp only [↓reduceIte]
-    rw [show openIndex { fs := F, volatile := vol, opts := opts } = cleanupold dbA used from hoi]
+    rw [show openIndex { fs := F, volatile := vol, opts := opts, eager := eg } = cleanupold dbA used from hoi]
   rw [hopen]
   show (loadAll (cleanupold dbA used)).index = _ ∧ (loadAll (cleanupold dbA used)).failed = none
   cases hl : l with
@@ -260,7 +268,9 @@ theorem open_snapshot (F : FS) (i v s : Nat) (l : List (Key × Rec)) (hwf : Inde
       simp
     have hfB : (cleanupold dbA used).failed = none := c6.trans hAf
     have hiB : (cleanupold dbA used).index = (layout s 4 l).map stripKR := c5.trans hAidx
-    have hfold := loadFold_layout s l hwf.cached hwf.wf (cleanupold dbA used) hfB (le32 s) [] hfileB
+    have heB : (cleanupold dbA used).eager = eg :=
+      (frame_cleanupold dbA used).eager.trans (memputAll_eager _ dbE)
+    have hfold := loadFold_layout s l hwf.cached hwf.wf (cleanupold dbA used) hfB heB (le32 s) [] hfileB
       (by simpa using hwf.small) []
     simp only [le32_length, List.nil_append] at hfold
     unfold loadAll
@@ -277,10 +287,10 @@ theorem layout_abs (s base : Nat) (l : List (Key × Rec)) : (layout s base l).ma
 theorem u32_lt (n : Nat) : u32 n < 2^32 := Nat.mod_lt _ (by decide)
 
 /-- defrag, then open the directory it left: same index, every value in memory -/
-theorem open_after_defrag (db : DB) (h : Cached db) (hwf : IndexWF db.index) (vol : Bool) (opts : Opts) :
-    (openDB (defrag db).fs vol true opts).index = (defrag db).index ∧
-    (openDB (defrag db).fs vol true opts).failed = none ∧
-    absv (openDB (defrag db).fs vol true opts) = absv db := by
+theorem open_after_defrag (db : DB) (h : Cached db) (hwf : IndexWF eg db.index) (vol : Bool) (opts : Opts) :
+    (openDB (defrag db).fs vol true opts eg).index = (defrag db).index ∧
+    (openDB (defrag db).fs vol true opts eg).failed = none ∧
+    absv (openDB (defrag db).fs vol true opts eg) = absv db := by
   obtain ⟨_, d2, d3, d4, d5, d6, _⟩ := defrag_disk db h
   obtain ⟨o1, o2⟩ := open_snapshot (defrag db).fs (1 - db.datIdx) (u32 (db.verSeq + 1)) (u32 (db.dataSeq + 1))
     db.index hwf (u32_lt _) (u32_lt _) d3 d4 d5 d6 vol opts
@@ -295,13 +305,13 @@ theorem close_after_defrag_nonvolatile (db : DB) (h : Cached db) (hv : db.volati
     have hfr0 := defragStart_frame db
     obtain ⟨d', w', l', hfold, hfr, _, _⟩ :=
       defrag_fold_cached (defragSink (defragStart db).dataSeq) (defragSink_framed _) db.index h.2
-        (defragStart db) {} [] (hfr0.failed.trans h.1)
+        (defragStart db) {} [] (hfr0.failed.trans h.1) hfr0.eager
     have hf' : d'.failed = none := (hfr.trans hfr0).failed.trans h.1
     have hd : defrag db = defragFinish (defragStart db).dataSeq d' w' l' := by
       unfold defrag
       simp only [hfr0.index, hfold, List.nil_append, hf']
     rw [hd]
-    exact (defragFinish_spec _ _ _ _).2.2.2.2.2
+    exact (defragFinish_spec _ _ _ _).2.2.2.2.2.1
   have hvol : (defrag db).volatile = false := hk.volatile.trans hv
   have hsync : sync (defrag db) = defrag db := by
     unfold sync
